@@ -231,25 +231,26 @@ def axis_obligations(chk):
     computes).  Pointwise, with pow uninterpreted and Sigma terms hash-consed: an ignored / hard-coded axis gives different terms."""
     lam = z3.Real("lamda")
     for fn in ("isoplanaticAngle", "coherenceTime", "rytov_variance"):
-        for shape_names, axis in ((("n0", "n1"), -1), (("n0", "n1"), 0), (("n0", "n1"), 1), (("n0", "n1", "n2"), 1), (("n0", "n1", "n2"), -3), (("n0", "n1", "n2"), None)):
+        for common, (shape_names, axis) in [(cm_, sa_) for cm_ in (False, True) for sa_ in ((("n0", "n1"), -1), (("n0", "n1"), 0), (("n0", "n1"), 1), (("n0", "n1", "n2"), 1), (("n0", "n1", "n2"), -3), (("n0", "n1", "n2"), None))]:
             dims = [z3.Int(n) for n in shape_names]
             nd = len(dims)
             ax = (axis if axis is not None else -1) % nd
             idx = [z3.Int("i%d" % d) for d in range(nd) if d != ax]
 
-            def run(it, fn=fn, dims=dims, axis=axis, ax=ax, idx=idx, nd=nd):
+            def run(it, fn=fn, dims=dims, axis=axis, ax=ax, idx=idx, nd=nd, common=common):
                 for d in dims:
                     it.ctx.assume(d >= 1)
                 it.ctx.assume(lam > 0)
                 cn2 = sym_arr("cn2", dims)
-                hh = sym_arr("h", dims)
+                # second argument: stacked like cn2, or ONE 1-d altitude / wind vector shared by all profiles (it lies along the axis)
+                hh = sym_arr("h", [dims[ax]] if common else dims)
                 kw = {} if axis is None else {"axis": axis}
                 full = it.call_repo(ATM, fn, [cn2, hh, lam], kw)
                 # the single profile through idx along the axis
                 def line(a):
                     snap = a.snapshot()
                     return Arr([dims[ax]], lambda k: snap(idx[:ax] + [k[0]] + idx[ax:]), "float")
-                single = it.call_repo(ATM, fn, [line(cn2), line(hh), lam], {})
+                single = it.call_repo(ATM, fn, [line(cn2), hh if common else line(hh), lam], {})
                 return full, single
 
             def post(pr, idx=idx, dims=dims, ax=ax):
@@ -262,5 +263,5 @@ def axis_obligations(chk):
                     goals.append(("result-shape", z3.And(*[zr(a) == zr(b) for a, b in zip(full.shape, rest)])))
                     goals.append(("stack-equals-loop", z3.Implies(z3.And(*inb), zr(full.get(idx)) == zr(single))))
                 return goals
-            verify(chk, "axis[%s,rank%d,axis=%s]" % (fn, nd, axis), ATM + ":" + fn, run, post, clause="axis", encoding="pointwise+sigma-hashcons",
+            verify(chk, "axis[%s,rank%d,axis=%s%s]" % (fn, nd, axis, ",common 1-d vector" if common else ""), ATM + ":" + fn, run, post, clause="axis", encoding="pointwise+sigma-hashcons",
                    replay=lambda m, fn=fn, nd=nd, axis=axis: {"fn": fn, "rank": nd, "axis": axis}, skip_defs=("divisor",))
